@@ -2,18 +2,10 @@
 (* Implementation-shaped model of maps/hashbidimap (and maps/treebidimap,       *)
 (* which is the same four statements over two red-black trees): two maps,       *)
 (* `forward` and `inverse`, updated by separate statements in Put / Remove.     *)
-EXTENDS Integers, Sequences, FiniteSets, TLC
+EXTENDS Integers, Sequences, FiniteSets, TLC, BidiOps
 CONSTANTS KeyU, ValU
 VARIABLES forward, inverse, last
 vars == <<forward, inverse, last>>
-HasK(m, k) == k \in DOMAIN m
-Del(m, k) == [x \in DOMAIN m \ {k} |-> m[x]]
-SetK(m, k, v) == [x \in DOMAIN m \cup {k} |-> IF x = k THEN v ELSE m[x]]
-PutS(f, g, k, v) ==
-  LET g1 == IF HasK(f, k) THEN Del(g, f[k]) ELSE g            \* if valueByKey, ok := forward.Get(key); ok { inverse.Remove(valueByKey) }
-      f1 == IF HasK(g1, v) THEN Del(f, g1[v]) ELSE f           \* if keyByValue, ok := inverse.Get(value); ok { forward.Remove(keyByValue) }
-  IN <<SetK(f1, k, v), SetK(g1, v, k)>>                         \* forward.Put(key, value); inverse.Put(value, key)
-RemoveS(f, g, k) == IF HasK(f, k) THEN <<Del(f, k), Del(g, f[k])>> ELSE <<f, g>>
 Init == forward = <<>> /\ inverse = <<>> /\ last = [op |-> "New", k |-> 0, v |-> 0]
 Step(op, k, v, r) == forward' = TLCEval(r[1]) /\ inverse' = TLCEval(r[2]) /\ last' = [op |-> op, k |-> k, v |-> v]
 Next == \/ \E k \in KeyU, v \in ValU : Step("Put", k, v, PutS(forward, inverse, k, v))
